@@ -38,13 +38,15 @@ def cases(run, rng):
     comps = ["disabled", "lz4", "zstd"] if T else ["disabled", "lz4"]
     for otel in (False, True):
         for s in (Q.SELECT_OK if T else Q.SELECT_OK[:5] + Q.SELECT_OK[-1:]) + Q.SELECT_EXC[:2]:
-            add(Q.cfg("select", s), otel=otel, compression=rng.choice(comps))
+            add(Q.cfg("select", s, ext=Q.rand_ext(rng, 0.5)), otel=otel, compression=rng.choice(comps))
         # (an insert whose server never sends the header block only ends by cancellation: not a free-running scenario)
+        # (a server that repeats the header block while the sender is still working with the first one)
         ins = [s for s in Q.INSERT_OK if any(i["k"] == "hdr" for i in s)]
-        for s in (ins if T else ins[:4]):
-            add(Q.cfg("insert", s, init_rows=1), otel=otel, compression=rng.choice(comps))
+        ins = ins[-2:] + ins[:-2]
+        for s in (ins if T else ins[:6]):
+            add(Q.cfg("insert", s, init_rows=1, ext=Q.rand_ext(rng, 0.5)), otel=otel, compression=rng.choice(comps))
             for pl in (Q.PLANS_OK if T else Q.PLANS_OK[:5]):
-                add(Q.cfg("stream", s, plan=pl, init_rows=rng.choice([0, 1])), otel=otel, compression=rng.choice(comps))
+                add(Q.cfg("stream", s, plan=pl, init_rows=rng.choice([0, 1]), ext=Q.rand_ext(rng, 0.3)), otel=otel, compression=rng.choice(comps))
         # the environment acts while the query runs
         for s in Q.SELECT_OK[2:5]:
             add(Q.cfg("select", s), fc=True, otel=otel)
@@ -63,7 +65,8 @@ def cases(run, rng):
 def body(run):
     T = run.thorough()
     rng = random.Random(run.seed)
-    st = Q.design(PID, ["MC_QL_foreign.cfg"] + (["MC_QL_cancel.cfg"] if T else []))
+    st = Q.design(PID, ["MC_QL_foreign.cfg", "MC_QL_info.cfg"] + (["MC_QL_cancel.cfg"] if T else []),
+                  nonvac=[("MC_QL_info_neg_copy.cfg", "NoInfoRace")])
     drv = V.go_build(PID, "drv", tags=("verif",), race=True)
     qcases, pcases = cases(run, rng)
     wd = V.workdir(PID, "free")
